@@ -178,6 +178,19 @@ func (s shape) extRendered(g int) string {
 	return b.String()
 }
 
+// dialRendered is how renderHS shows what the server of clientUpgradeBR selected in generation g (every
+// offered extension, parameter values one byte longer than in the shape).
+func (s shape) dialRendered(g int) string {
+	var b strings.Builder
+	for i, n := range s.ExtLens {
+		b.WriteString(" | " + word(g, 10+i, n))
+		if kl := s.ParamLens[i][0]; kl > 0 {
+			b.WriteString(";" + word(g, 20+i, kl) + "=" + word(g, 30+i, s.ParamLens[i][1]+1))
+		}
+	}
+	return b.String()
+}
+
 func (s shape) request(g int, deflate string) []byte {
 	key := base64.StdEncoding.EncodeToString([]byte(word(g, 40, 16)))
 	ext := s.extHeader(g)
@@ -596,12 +609,17 @@ func TestResultsSurvivePoolReuse(t *testing.T) {
 			t.Fatalf("step 1 (%s) failed: %v\nshape: %+v", kind, err, s)
 		}
 		snapshot := live()
-		if kind == "Dialer" || strings.HasPrefix(kind, "Upgrader") || strings.HasPrefix(kind, "HTTPUpgrader") {
+		if strings.HasPrefix(kind, "Dialer") || strings.HasPrefix(kind, "Upgrader") || strings.HasPrefix(kind, "HTTPUpgrader") {
 			if !strings.Contains(snapshot, "proto="+s.protos(0)[s.Pick]) {
 				t.Fatalf("harness: unexpected handshake result %q", snapshot)
 			}
 			// every accepted extension is its own copy of what was offered: with a selector that accepts everything
 			// the result lists all offers as sent (several accepted options of one header line must not share memory)
+			if strings.HasPrefix(kind, "Dialer") {
+				if want := "proto=" + s.protos(0)[s.Pick] + s.dialRendered(0); snapshot != want {
+					t.Fatalf("%s: the handshake result right after the call is\n  %q\nthe server selected\n  %q", kind, snapshot, want)
+				}
+			}
 			if strings.HasSuffix(kind, "/Protocol+Extension") {
 				if want := "proto=" + s.protos(0)[s.Pick] + s.extRendered(0); snapshot != want {
 					t.Fatalf("%s: the handshake result right after the call is\n  %q\nthe request offered (and the selector accepted)\n  %q", kind, snapshot, want)
